@@ -1,6 +1,6 @@
 (* C10 carriers (5) (1) (2): executable runners. *)
 From Coq Require Import List ZArith Arith Bool String Ascii.
-From Gst Require Import lib.Sx C10.Model C10.ModelCow C10.ModelRng C10.ModelOptim C10.ModelMemo C10.gen.VectorTOps C10.gen.OptimPaths.
+From Gst Require Import lib.Sx C10.Model C10.ModelCow C10.ModelRng C10.ModelOptim C10.ModelMemo C10.ModelCache C10.gen.VectorTOps C10.gen.OptimPaths C10.gen.NeighCache C10.gen.Statics C10.gen.KSysCache.
 Import ListNotations.
 
 Definition ofString (s : string) : sx := L (map (fun a => I (Z.of_nat (nat_of_ascii a))) (list_ascii_of_string s)).
@@ -44,7 +44,32 @@ Definition asRop (s : sx) : option rop :=
   | L [I 1%Z] => Some RDraw
   | _ => None
   end.
-Definition ofEv (e : ev) : sx := I (match e with Pre => 0 | Post => 1 | Ret => 2 | RetFail => 3 end)%Z.
+Definition ofEv (e : ev) : sx := I (match e with Pre => 0 | Post => 1 | Ret => 2 | RetFail => 3 | Tgt => 4 | TgtIdx => 5 end)%Z.
+
+Fixpoint cterm_eqb (a b : cterm) : bool :=
+  match a, b with
+  | CEmpty f, CEmpty g => Nat.eqb f g
+  | CV f i l, CV g j k =>
+      Nat.eqb f g && list_eqb i j &&
+      (fix go (l k : list cterm) : bool := match l, k with [] , [] => true | x :: l', y :: k' => cterm_eqb x y && go l' k' | _, _ => false end) l k
+  | _, _ => false
+  end.
+Definition ofCFail (f : cfailc) : sx :=
+  match f with CFShape f => L [I 0%Z; ofNat f] | CFStale k i f => L [I 1%Z; ofNat k; ofNat i; ofNat f] end.
+Definition asCop (s : sx) : option cop :=
+  match s with
+  | L [I 0%Z; k; asg] =>
+      match asNat k, asListOf (fun x => match x with L [i; v] => match asNat i, asNat v with Some i', Some v' => Some (i', v') | _, _ => None end | _ => None end) asg with
+      | Some k', Some a => Some (CSet k' a)
+      | _, _ => None
+      end
+  | L [I 1%Z; f] => match asNat f with Some f' => Some (CQuery f') | None => None end
+  | _ => None
+  end.
+Fixpoint eq_flags (a b : list cterm) : list bool :=
+  match a, b with x :: a', y :: b' => cterm_eqb x y :: eq_flags a' b' | _, _ => [] end.
+Definition ofClass (c : sclass) : sx :=
+  I (match c with SConst => 0 | SRng => 1 | SOption => 2 | SHook => 3 | SLocal => 4 | SCross => 5 | SUnknown => 6 | SReset => 7 | SCarry => 8 end)%Z.
 
 Definition runMisc (c : sx) : sx :=
   match c with
@@ -60,6 +85,20 @@ Definition runMisc (c : sx) : sx :=
       | None => sx_error 1
       end
   | L [I 70%Z] => ofList (fun nw => L [ofString (fst nw); ofList ofEv (snd nw)]) (failed_paths optim_paths)
+  | L [I 87%Z] => ofList ofCFail (cache_failed ksys_table)
+  | L [I 84%Z] =>
+      L [ofList (fun r => L [ofString (fst (fst (fst r))); ofList ofCFail (cache_failed (snd (fst (fst r)))); ofB (policy_ok (snd (fst r)) (snd r))]) neigh_tables;
+         ofList (fun r => ofString (fst r)) (filter (fun r => negb (scratch_dead [] (snd r))) neigh_scratch);
+         ofList (fun r => L [ofString (fst (fst r)); ofString (snd (fst r)); ofClass (snd r)]) (filter (fun r => match snd r with SConst => false | _ => true end) statics);
+         ofB (entries_ok optim_entries)]
+  | L [I 83%Z; I ci; ops] =>
+      match nth_error neigh_tables (Z.to_nat ci), asListOf asCop ops with
+      | Some r, Some ops' =>
+          let T := snd (fst (fst r)) in
+          let s0 := cinit T (fun _ => 0) in
+          ofList ofB (eq_flags (ctrace T s0 ops') (ctrace_fresh T s0 ops'))
+      | _, _ => sx_error 1
+      end
   | L [I 81%Z; tbl; ts] =>
       (* tbl = ((target (ranks...)) ...) : what a fresh neighbourhood object selects for each target *)
       match asListOf (fun x => match x with L [t; r] => match asNat t, asListOf asNat r with Some t', Some r' => Some (t', r') | _, _ => None end | _ => None end) tbl,
